@@ -38,7 +38,10 @@ RULE = ("gen-*: random mixes of all 8 compound constraint types (incl. reference
         "jointly satisfiable mixes derived from a hidden placement and planted unsatisfiable gadgets (cycles, conflicting equalities, "
         "aligned-and-separated, boundary conflicts), overlap avoidance / neighbour stress on and off; non-trivial = has user constraints and the layout moved. "
         "sizes-*: width()/height() before and after the same layout run. "
-        "mfwit-*: the three closed witness scenes of Props/C07MakeFeasible run through the real makeFeasible().")
+        "mfwit-*: the three closed witness scenes of Props/C07MakeFeasible run through the real makeFeasible(). "
+        "fdmf-ovl / fdmfrun-ovl: 3-5 mutually overlapping rectangles of pairwise different sizes and centres with overlap avoidance "
+        "(every shape pair of the non-overlap item is handled individually), makeFeasible alone or followed by run(). "
+        "A hang is the known library livelock only if the MODEL's non-overlap loop does not terminate either; otherwise it is the strict kind hang-but-model-terminates.")
 TRUSTED_BASE = ["Lean 4.33 kernel", "axioms: propext, Classical.choice, Quot.sound", "compiled Lean driver",
                 "harness/c07.cpp + c07_cc.h (scene generator, dump; protected-member accessor for the satisfied flags; "
                 "std::sort replicated on (priority, index) pairs to learn the order of idleConstraints)", "hex-float import", "g++ ASan/UBSan build of /repo sources"]
